@@ -1,6 +1,1191 @@
-//! stub (engine under construction)
+//! C11: problem / matrix / solution documents survive round trips; a written solution is read back as
+//! the same initial solution; CSV import carries the tables' data.
+
+use super::common::*;
+use super::e2e::{read_core, solve_to_solution};
+use super::pgen::*;
 use crate::fw::*;
+use proptest::prelude::*;
+use rosomaxa::prelude::Random;
+use serde::{Deserialize, Serialize};
+use serde_json::{Map, Value, json};
+use std::collections::{BTreeMap, BTreeSet};
+use std::io::{BufReader, BufWriter};
+use std::sync::Arc;
+use vrp_cli::extensions::import::import_problem;
+use vrp_core::models::Problem as CoreProblem;
+use vrp_core::models::problem::{JobIdDimension, Multi, VehicleIdDimension};
+use vrp_pragmatic::format::problem as api;
+use vrp_pragmatic::format::problem::PragmaticProblem;
+use vrp_pragmatic::format::solution as sol;
+use vrp_pragmatic::format::{CoordIndexExtraProperty, JobTypeDimension, Location as ApiLocation, PlaceTagsDimension, ShiftIndexDimension};
+
+const P: &str = "C11";
+type Obj = Map<String, Value>;
+
+// ---------------------------------------------------------------------------------------------
+// JSON comparison (numbers as numbers, equal up to 1 ULP) and the round-trip law
+// ---------------------------------------------------------------------------------------------
+
+fn ulp_key(x: f64) -> i128 { let b = x.to_bits() as i64; (if b < 0 { i64::MIN.wrapping_sub(b) } else { b }) as i128 }
+
+fn num_eq(a: &serde_json::Number, b: &serde_json::Number, ulps: i128) -> bool {
+    if !a.is_f64() && !b.is_f64() { return a == b; }
+    matches!((a.as_f64(), b.as_f64()), (Some(x), Some(y)) if (ulp_key(x) - ulp_key(y)).abs() <= ulps)
+}
+
+/// First difference of two JSON trees (numbers equal up to `ulps`). `lenient`: an object member with
+/// value null equals an absent one.
+fn diff(a: &Value, b: &Value, lenient: bool, ulps: i128, path: &str) -> Option<String> {
+    match (a, b) {
+        (Value::Number(x), Value::Number(y)) => (!num_eq(x, y, ulps)).then(|| format!("{path}: number {x} vs {y}")),
+        (Value::Array(x), Value::Array(y)) => {
+            if x.len() != y.len() { return Some(format!("{path}: array length {} vs {}", x.len(), y.len())); }
+            x.iter().zip(y).enumerate().find_map(|(i, (p, q))| diff(p, q, lenient, ulps, &format!("{path}/{i}")))
+        }
+        (Value::Object(x), Value::Object(y)) => {
+            let keys: BTreeSet<&String> = x.keys().chain(y.keys()).collect();
+            keys.into_iter().find_map(|k| match (x.get(k), y.get(k)) {
+                (Some(p), Some(q)) => diff(p, q, lenient, ulps, &format!("{path}/{k}")),
+                (Some(Value::Null), None) | (None, Some(Value::Null)) if lenient => None,
+                (p, q) => Some(format!("{path}/{k}: {} vs {}", p.map_or("<absent>".to_string(), |v| v.to_string()), q.map_or("<absent>".to_string(), |v| v.to_string()))),
+            })
+        }
+        _ => (a != b).then(|| format!("{path}: {a} vs {b}")),
+    }
+}
+
+/// Signature of "a number came back more than 1 ULP away" (kept apart from structural differences).
+const DRIFT: &str = "doc:number-beyond-1ulp";
+
+/// Asserts equality of two trees with the 1 ULP rule; differences that are only numeric (within 16 ULP)
+/// get the DRIFT signature, which is excluded and counted while it is an open known finding.
+fn same(sig: String, what: &str, a: &Value, b: &Value, lenient: bool, stats: &Stats, ctx: &str) -> Check {
+    let Some(d) = diff(a, b, lenient, 1, "") else { return Ok(()) };
+    if diff(a, b, lenient, 16, "").is_none() {
+        if known_open(P, DRIFT) { stats.known_hit(DRIFT); return Ok(()); }
+        return Err(Failure::new(DRIFT, format!("{what}: a number is not reproduced to the last but one bit at {d}\n{ctx}")));
+    }
+    Err(Failure::new(sig, format!("{what} at {d}\n{ctx}")))
+}
+
+fn has_null_member(v: &Value) -> bool { match v { Value::Object(o) => o.values().any(|x| x.is_null() || has_null_member(x)), Value::Array(a) => a.iter().any(has_null_member), _ => false, } }
+
+fn into_text(w: BufWriter<Vec<u8>>) -> Result<String, String> { String::from_utf8(w.into_inner().map_err(|e| e.to_string())?).map_err(|e| e.to_string()) }
+
+fn ser_problem(p: &api::Problem) -> Result<String, String> { let mut w = BufWriter::new(Vec::new()); api::serialize_problem(p, &mut w).map_err(|e| e.to_string())?; into_text(w) }
+
+fn de_problem(t: &str) -> Result<api::Problem, String> { api::deserialize_problem(BufReader::new(t.as_bytes())).map_err(|e| e.to_string()) }
+
+fn ser_matrix(m: &api::Matrix) -> Result<String, String> { serde_json::to_string_pretty(m).map_err(|e| e.to_string()) }
+
+fn de_matrix(t: &str) -> Result<api::Matrix, String> { api::deserialize_matrix(BufReader::new(t.as_bytes())).map_err(|e| e.to_string()) }
+
+fn ser_solution(s: &sol::Solution) -> Result<String, String> { let mut w = BufWriter::new(Vec::new()); sol::serialize_solution(s, &mut w).map_err(|e| e.to_string())?; into_text(w) }
+
+fn de_solution(t: &str) -> Result<sol::Solution, String> { sol::deserialize_solution(BufReader::new(t.as_bytes())).map_err(|e| e.to_string()) }
+
+fn parse_guarded<T>(kind: &str, what: &str, text: &str, de: &dyn Fn(&str) -> Result<T, String>) -> Result<Result<T, String>, Failure> {
+    guard(|| de(text)).map_err(|p| Failure::new(format!("{kind}:parse-panic:{}", panic_site(&p)), format!("parsing {what} panicked: {p}\n{text}")))
+}
+
+/// ser(parse(ser(d))) == ser(d) as JSON trees, and parse(ser(d)) == d field by field (through
+/// serde_json::to_value of both model values, i.e. without text in between). Returns (ser(d), its tree).
+fn law<T: Serialize>(kind: &str, d: &T, ser: &dyn Fn(&T) -> Result<String, String>, de: &dyn Fn(&str) -> Result<T, String>, stats: &Stats) -> Result<(String, Value), Failure> {
+    let t1 = ser(d).map_err(|e| Failure::new(format!("{kind}:serialize-failed"), e))?;
+    let v1: Value = serde_json::from_str(&t1).map_err(|e| Failure::new(format!("{kind}:written-text-not-json"), format!("{e}\n{t1}")))?;
+    let p = parse_guarded(kind, "a written document", &t1, de)?.map_err(|e| Failure::new(format!("{kind}:reparse-rejected"), format!("the parser rejected a document written by the serializer: {e}\n{t1}")))?;
+    let t2 = ser(&p).map_err(|e| Failure::new(format!("{kind}:serialize-failed"), e))?;
+    let v2: Value = serde_json::from_str(&t2).map_err(|e| Failure::new(format!("{kind}:written-text-not-json"), format!("{e}\n{t2}")))?;
+    same(format!("{kind}:not-idempotent"), "ser(d) (left) differs from ser(parse(ser(d))) (right)", &v1, &v2, false, stats, &t1)?;
+    let (m1, m2) = (serde_json::to_value(d).unwrap_or(Value::Null), serde_json::to_value(&p).unwrap_or(Value::Null));
+    same(format!("{kind}:field-changed"), "d (left) differs from parse(ser(d)) (right)", &m1, &m2, false, stats, &t1)?;
+    Ok((t1, v1))
+}
+
+/// Every field the generator set must appear in the written text under its documented name with its value.
+fn expect_tree(kind: &str, expected: &Value, written: &Value, text: &str, stats: &Stats) -> Check {
+    let mut written = written.clone();
+    for (code, docs) in [("job_radius", "jobRadius"), ("vehicle_id", "vehicleId"), ("shift_index", "shiftIndex")] {
+        // docs: compact-tour `jobRadius`, break violation `vehicleId`/`shiftIndex`; the model writes snake_case
+        // (enum-level rename_all does not reach variant fields) - docs and code disagree: counted, not asserted
+        if rename_key(&mut written, code, docs) > 0 { stats.class(&format!("{kind}.unspecified.spelling_differs_from_docs.{code}")); }
+    }
+    if has_null_member(&written) { stats.class(&format!("{kind}.unspecified.none_written_as_null")); }
+    same(format!("{kind}:field-lost-or-renamed"), "generator-side expectation (left) differs from the written document (right)", expected, &written, true, stats, text)
+}
+
+fn rename_key(v: &mut Value, from: &str, to: &str) -> usize {
+    match v {
+        Value::Object(o) => { let mut n = 0; if let Some(x) = o.remove(from) { o.insert(to.to_string(), x); n += 1; } n + o.values_mut().map(|x| rename_key(x, from, to)).sum::<usize>() }
+        Value::Array(a) => a.iter_mut().map(|x| rename_key(x, from, to)).sum(),
+        _ => 0,
+    }
+}
+
+/// Documented input aliases: the document with the alias spelling must parse to the same model value.
+fn alias_check<T: Serialize>(kind: &str, d: &T, from: &str, to: &str, de: &dyn Fn(&str) -> Result<T, String>, stats: &Stats) -> Check {
+    let model = serde_json::to_value(d).unwrap_or(Value::Null);
+    let mut aliased = model.clone();
+    if rename_key(&mut aliased, from, to) == 0 { return Ok(()); }
+    stats.class(&format!("{kind}.alias.{to}"));
+    let text = aliased.to_string();
+    let p = parse_guarded(kind, "an aliased document", &text, de)?.map_err(|e| Failure::new(format!("{kind}:alias-rejected:{to}"), format!("alias '{to}' for '{from}' rejected: {e}\n{text}")))?;
+    same(format!("{kind}:alias-changed:{to}"), &format!("d (left) differs from the parse of d spelled with alias '{to}' (right)"), &model, &serde_json::to_value(&p).unwrap_or(Value::Null), false, stats, &text)
+}
+
+// ---------------------------------------------------------------------------------------------
+// choice stream: every Option / variant / value of the "every optional field" generators is drawn from it
+// ---------------------------------------------------------------------------------------------
+
+#[derive(Clone, Debug, Serialize, Deserialize)]
+pub enum Fl { Pool(u8), Bits(u64), Dec(i32, u8), }
+
+#[derive(Clone, Debug, Serialize, Deserialize)]
+pub struct Stream { pub bits: Vec<u16>, pub floats: Vec<Fl>, }
+
+const FLOATS: [f64; 40] = [
+    0.0, 1.0, -1.0, 5.0, 100.0, 3600.0, 0.5, 2.25, 0.1, 1.1, 1e-7, 1e15, 1e16, 0.30000000000000004, 1e21, 1e22, 1e23, 5e-324, 2.2250738585072014e-308, 2.225073858507201e-308,
+    1.7976931348623157e308, 9007199254740992.0, 9007199254740994.0, 123456789.12345678, 0.3333333333333333, 4.35, 2.675, 1e-5, 1.5e-10, 8.41e21, 7.038531e-26, 1.0000000000000002,
+    0.9999999999999999, 1577836800.0, 52.52599, 13.45413, -0.0, 0.000001, 1e300, -123.456,
+];
+const TEXTS: [&str; 16] = ["a", "job1", "", "with space", "quote\"inside", "back\\slash", "tab\tnew\nline", "\u{1}ctl", "ünï-cødé", "日本語", "emoji-🚚", "departure", "12", "null", "a/b~c", "\u{7f}\u{2028}"];
+
+fn fl(f: &Fl) -> f64 {
+    match f {
+        Fl::Pool(i) => FLOATS[*i as usize % FLOATS.len()],
+        Fl::Bits(b) => f64::from_bits(if (*b >> 52) & 0x7ff == 0x7ff { *b & !(1u64 << 52) } else { *b }),
+        Fl::Dec(m, e) => *m as f64 / 10f64.powi(*e as i32),
+    }
+}
+
+fn stream(max: usize) -> impl Strategy<Value = Stream> {
+    let f = prop_oneof![4 => any::<u8>().prop_map(Fl::Pool), 2 => any::<u64>().prop_map(Fl::Bits), 2 => (-1_000_000i32..1_000_000, 0u8..8).prop_map(|(m, e)| Fl::Dec(m, e))];
+    (prop::collection::vec(any::<u16>(), 8..max), prop::collection::vec(f, 1..24)).prop_map(|(bits, floats)| Stream { bits, floats })
+}
+
+struct Src<'a> { s: &'a Stream, i: usize, f: usize, optional: usize, untagged: usize, }
+
+impl<'a> Src<'a> {
+    fn new(s: &'a Stream) -> Self { Self { s, i: 0, f: 0, optional: 0, untagged: 0 } }
+    fn next(&mut self) -> u16 { let n = self.s.bits.len(); let v = self.s.bits[self.i % n] ^ ((self.i / n) as u16).wrapping_mul(0x9E37); self.i += 1; v }
+    fn flag(&mut self) -> bool { let b = self.next() & 1 == 1; self.optional += b as usize; b }
+    fn pick(&mut self, n: usize) -> usize { pick_idx(self.next(), n) }
+    fn float(&mut self) -> f64 { let v = fl(&self.s.floats[self.f % self.s.floats.len()]); self.f += 1; v }
+    fn text(&mut self) -> String { TEXTS[self.pick(TEXTS.len())].to_string() }
+    fn time(&mut self) -> String { match self.pick(8) { 0 => "2020-07-04T08:00:00+02:00".to_string(), 1 => "not-a-date".to_string(), _ => fmt_time(T0 + self.next() as i64 * 37), } }
+    fn list<T>(&mut self, max: usize, mut f: impl FnMut(&mut Self) -> (T, Value)) -> (Vec<T>, Value) {
+        let n = self.pick(max + 1);
+        let (a, b): (Vec<T>, Vec<Value>) = (0..n).map(|_| f(self)).unzip();
+        (a, Value::Array(b))
+    }
+    fn opt<T>(&mut self, o: &mut Obj, key: &str, f: impl FnOnce(&mut Self) -> (T, Value)) -> Option<T> { self.flag().then(|| self.req(o, key, f)) }
+    fn req<T>(&mut self, o: &mut Obj, key: &str, f: impl FnOnce(&mut Self) -> (T, Value)) -> T { let (t, v) = f(self); o.insert(key.to_string(), v); t }
+}
+
+fn b_f(s: &mut Src) -> (f64, Value) { let x = s.float(); (x, json!(x)) }
+fn b_text(s: &mut Src) -> (String, Value) { let x = s.text(); (x.clone(), json!(x)) }
+fn b_time(s: &mut Src) -> (String, Value) { let x = s.time(); (x.clone(), json!(x)) }
+fn b_int(s: &mut Src) -> (i32, Value) { let x = [0, 1, -1, 3, 100, i32::MAX, i32::MIN][s.pick(7)]; (x, json!(x)) }
+fn b_long(s: &mut Src) -> (i64, Value) { let x = [0, 1, -1, 42, 86_400, i64::MAX, i64::MIN][s.pick(7)]; (x, json!(x)) }
+fn b_idx(s: &mut Src) -> (usize, Value) { let x = [0, 1, 7, 1000, usize::MAX][s.pick(5)]; (x, json!(x)) }
+fn b_bool(s: &mut Src) -> (bool, Value) { let x = s.pick(2) == 1; (x, json!(x)) }
+fn b_texts(s: &mut Src) -> (Vec<String>, Value) { s.list(2, b_text) }
+fn b_ints(s: &mut Src) -> (Vec<i32>, Value) { s.list(3, b_int) }
+fn b_longs(s: &mut Src) -> (Vec<i64>, Value) { s.list(4, b_long) }
+fn b_fs(s: &mut Src) -> (Vec<f64>, Value) { s.list(3, b_f) }
+fn b_window(s: &mut Src) -> (Vec<String>, Value) { let v = vec![s.time(), s.time()]; (v.clone(), json!(v)) }
+fn b_windows(s: &mut Src) -> (Vec<Vec<String>>, Value) { s.list(2, b_window) }
+fn b_loc(s: &mut Src) -> (ApiLocation, Value) {
+    s.untagged += 1;
+    match s.pick(3) {
+        0 => { let (lat, lng) = (s.float(), s.float()); (ApiLocation::Coordinate { lat, lng }, json!({"lat": lat, "lng": lng})) }
+        1 => { let (index, v) = b_idx(s); (ApiLocation::Reference { index }, json!({"index": v})) }
+        _ => (ApiLocation::new_unknown(), json!({"type": "unknown"})),
+    }
+}
+
+// ---------------------------------------------------------------------------------------------
+// "every optional field" problem / matrix generator: model value + independently rendered expectation
+// ---------------------------------------------------------------------------------------------
+
+fn b_place(s: &mut Src) -> (api::JobPlace, Value) {
+    let mut o = Obj::new();
+    let p = api::JobPlace { location: s.req(&mut o, "location", b_loc), duration: s.req(&mut o, "duration", b_f), times: s.opt(&mut o, "times", b_windows), tag: s.opt(&mut o, "tag", b_text) };
+    (p, Value::Object(o))
+}
+
+fn b_tasks(s: &mut Src) -> (Vec<api::JobTask>, Value) {
+    s.list(2, |s| {
+        let mut o = Obj::new();
+        let t = api::JobTask { places: s.req(&mut o, "places", |s| s.list(2, b_place)), demand: s.opt(&mut o, "demand", b_ints), order: s.opt(&mut o, "order", b_int) };
+        (t, Value::Object(o))
+    })
+}
+
+fn b_job(s: &mut Src) -> (api::Job, Value) {
+    let mut o = Obj::new();
+    let j = api::Job {
+        id: s.req(&mut o, "id", b_text),
+        pickups: s.opt(&mut o, "pickups", b_tasks),
+        deliveries: s.opt(&mut o, "deliveries", b_tasks),
+        replacements: s.opt(&mut o, "replacements", b_tasks),
+        services: s.opt(&mut o, "services", b_tasks),
+        skills: s.opt(&mut o, "skills", |s| {
+            let mut k = Obj::new();
+            let v = api::JobSkills { all_of: s.opt(&mut k, "allOf", b_texts), one_of: s.opt(&mut k, "oneOf", b_texts), none_of: s.opt(&mut k, "noneOf", b_texts) };
+            (v, Value::Object(k))
+        }),
+        value: s.opt(&mut o, "value", b_f),
+        group: s.opt(&mut o, "group", b_text),
+        compatibility: s.opt(&mut o, "compatibility", b_text),
+    };
+    (j, Value::Object(o))
+}
+
+fn b_relation(s: &mut Src) -> (api::Relation, Value) {
+    let mut o = Obj::new();
+    let r = api::Relation {
+        type_field: s.req(&mut o, "type", |s| match s.pick(3) {
+            0 => (api::RelationType::Any, json!("any")),
+            1 => (api::RelationType::Sequence, json!("sequence")),
+            _ => (api::RelationType::Strict, json!("strict")),
+        }),
+        jobs: s.req(&mut o, "jobs", b_texts),
+        vehicle_id: s.req(&mut o, "vehicleId", b_text),
+        shift_index: s.opt(&mut o, "shiftIndex", b_idx),
+    };
+    (r, Value::Object(o))
+}
+
+fn b_profile(s: &mut Src) -> (api::VehicleProfile, Value) {
+    let mut o = Obj::new();
+    let p = api::VehicleProfile { matrix: s.req(&mut o, "matrix", b_text), scale: s.opt(&mut o, "scale", b_f) };
+    (p, Value::Object(o))
+}
+
+fn b_clustering(s: &mut Src) -> (api::Clustering, Value) {
+    let mut o = Obj::new();
+    o.insert("type".to_string(), json!("vicinity"));
+    let c = api::Clustering::Vicinity {
+        profile: s.req(&mut o, "profile", b_profile),
+        threshold: s.req(&mut o, "threshold", |s| {
+            let mut t = Obj::new();
+            let v = api::VicinityThresholdPolicy {
+                duration: s.req(&mut t, "duration", b_f),
+                distance: s.req(&mut t, "distance", b_f),
+                min_shared_time: s.opt(&mut t, "minSharedTime", b_f),
+                smallest_time_window: s.opt(&mut t, "smallestTimeWindow", b_f),
+                max_jobs_per_cluster: s.opt(&mut t, "maxJobsPerCluster", b_idx),
+            };
+            (v, Value::Object(t))
+        }),
+        visiting: s.req(&mut o, "visiting", |s| if s.pick(2) == 0 { (api::VicinityVisitPolicy::Return, json!("return")) } else { (api::VicinityVisitPolicy::Continue, json!("continue")) }),
+        serving: s.req(&mut o, "serving", |s| {
+            let (value, parking) = (s.float(), s.float());
+            match s.pick(3) {
+                0 => (api::VicinityServingPolicy::Original { parking }, json!({"type": "original", "parking": parking})),
+                1 => (api::VicinityServingPolicy::Multiplier { value, parking }, json!({"type": "multiplier", "value": value, "parking": parking})),
+                _ => (api::VicinityServingPolicy::Fixed { value, parking }, json!({"type": "fixed", "value": value, "parking": parking})),
+            }
+        }),
+        filtering: s.opt(&mut o, "filtering", |s| { let (ids, v) = b_texts(s); (api::VicinityFilteringPolicy { exclude_job_ids: ids }, json!({"excludeJobIds": v})) }),
+    };
+    (c, Value::Object(o))
+}
+
+fn b_break(s: &mut Src) -> (api::VehicleBreak, Value) {
+    let mut o = Obj::new();
+    s.untagged += 2;
+    let b = if s.pick(2) == 0 {
+        api::VehicleBreak::Optional {
+            time: s.req(&mut o, "time", |s| {
+                if s.pick(2) == 0 {
+                    let (w, v) = if s.pick(6) == 0 { s.list(3, b_time) } else { b_window(s) };
+                    (api::VehicleOptionalBreakTime::TimeWindow(w), v)
+                } else { let (w, v) = b_fs(s); (api::VehicleOptionalBreakTime::TimeOffset(w), v) }
+            }),
+            places: s.req(&mut o, "places", |s| {
+                s.list(2, |s| {
+                    let mut p = Obj::new();
+                    let v = api::VehicleOptionalBreakPlace { duration: s.req(&mut p, "duration", b_f), location: s.opt(&mut p, "location", b_loc), tag: s.opt(&mut p, "tag", b_text) };
+                    (v, Value::Object(p))
+                })
+            }),
+            policy: s.opt(&mut o, "policy", |s| {
+                if s.pick(2) == 0 { (api::VehicleOptionalBreakPolicy::SkipIfNoIntersection, json!("skip-if-no-intersection")) } else { (api::VehicleOptionalBreakPolicy::SkipIfArrivalBeforeEnd, json!("skip-if-arrival-before-end")) }
+            }),
+        }
+    } else {
+        api::VehicleBreak::Required {
+            time: s.req(&mut o, "time", |s| {
+                if s.pick(2) == 0 {
+                    let (earliest, latest) = (s.time(), s.time());
+                    let v = json!({"earliest": earliest, "latest": latest});
+                    (api::VehicleRequiredBreakTime::ExactTime { earliest, latest }, v)
+                } else { let (earliest, latest) = (s.float(), s.float()); (api::VehicleRequiredBreakTime::OffsetTime { earliest, latest }, json!({"earliest": earliest, "latest": latest})) }
+            }),
+            duration: s.req(&mut o, "duration", b_f),
+        }
+    };
+    (b, Value::Object(o))
+}
+
+fn b_shift(s: &mut Src) -> (api::VehicleShift, Value) {
+    let mut o = Obj::new();
+    let sh = api::VehicleShift {
+        start: s.req(&mut o, "start", |s| {
+            let mut p = Obj::new();
+            let v = api::ShiftStart { earliest: s.req(&mut p, "earliest", b_time), latest: s.opt(&mut p, "latest", b_time), location: s.req(&mut p, "location", b_loc) };
+            (v, Value::Object(p))
+        }),
+        end: s.opt(&mut o, "end", |s| {
+            let mut p = Obj::new();
+            let v = api::ShiftEnd { earliest: s.opt(&mut p, "earliest", b_time), latest: s.req(&mut p, "latest", b_time), location: s.req(&mut p, "location", b_loc) };
+            (v, Value::Object(p))
+        }),
+        breaks: s.opt(&mut o, "breaks", |s| s.list(2, b_break)),
+        reloads: s.opt(&mut o, "reloads", |s| {
+            s.list(2, |s| {
+                let mut p = Obj::new();
+                let v = api::VehicleReload {
+                    location: s.req(&mut p, "location", b_loc),
+                    duration: s.req(&mut p, "duration", b_f),
+                    times: s.opt(&mut p, "times", b_windows),
+                    tag: s.opt(&mut p, "tag", b_text),
+                    resource_id: s.opt(&mut p, "resourceId", b_text),
+                };
+                (v, Value::Object(p))
+            })
+        }),
+        recharges: s.opt(&mut o, "recharges", |s| {
+            let mut p = Obj::new();
+            let v = api::VehicleRecharges { max_distance: s.req(&mut p, "maxDistance", b_f), stations: s.req(&mut p, "stations", |s| s.list(2, b_place)) };
+            (v, Value::Object(p))
+        }),
+    };
+    (sh, Value::Object(o))
+}
+
+fn b_vehicle(s: &mut Src) -> (api::VehicleType, Value) {
+    let mut o = Obj::new();
+    let v = api::VehicleType {
+        type_id: s.req(&mut o, "typeId", b_text),
+        vehicle_ids: s.req(&mut o, "vehicleIds", b_texts),
+        profile: s.req(&mut o, "profile", b_profile),
+        costs: s.req(&mut o, "costs", |s| {
+            let mut p = Obj::new();
+            let v = api::VehicleCosts { fixed: s.opt(&mut p, "fixed", b_f), distance: s.req(&mut p, "distance", b_f), time: s.req(&mut p, "time", b_f) };
+            (v, Value::Object(p))
+        }),
+        shifts: s.req(&mut o, "shifts", |s| s.list(2, b_shift)),
+        capacity: s.req(&mut o, "capacity", b_ints),
+        skills: s.opt(&mut o, "skills", b_texts),
+        limits: s.opt(&mut o, "limits", |s| {
+            let mut p = Obj::new();
+            let v = api::VehicleLimits { max_distance: s.opt(&mut p, "maxDistance", b_f), max_duration: s.opt(&mut p, "maxDuration", b_f), tour_size: s.opt(&mut p, "tourSize", b_idx) };
+            (v, Value::Object(p))
+        }),
+    };
+    (v, Value::Object(o))
+}
+
+fn b_objective(s: &mut Src, nested: bool) -> (api::Objective, Value) {
+    use api::Objective::*;
+    let mut o = Obj::new();
+    let (obj, name) = match s.pick(if nested { 16 } else { 17 }) {
+        0 => (MinimizeCost, "minimize-cost"),
+        1 => (MinimizeDistance, "minimize-distance"),
+        2 => (MinimizeDuration, "minimize-duration"),
+        3 => (MinimizeTours, "minimize-tours"),
+        4 => (MaximizeTours, "maximize-tours"),
+        5 => (MaximizeValue { breaks: s.opt(&mut o, "breaks", b_f) }, "maximize-value"),
+        6 => (MinimizeUnassigned { breaks: s.opt(&mut o, "breaks", b_f) }, "minimize-unassigned"),
+        7 => (MinimizeArrivalTime, "minimize-arrival-time"),
+        8 => (BalanceMaxLoad, "balance-max-load"),
+        9 => (BalanceActivities, "balance-activities"),
+        10 => (BalanceDistance, "balance-distance"),
+        11 => (BalanceDuration, "balance-duration"),
+        12 => (CompactTour { job_radius: s.req(&mut o, "jobRadius", b_idx) }, "compact-tour"),
+        13 => (TourOrder, "tour-order"),
+        14 => (FastService, "fast-service"),
+        15 => (HierarchicalAreas { levels: s.req(&mut o, "levels", b_idx) }, "hierarchical-areas"),
+        _ => (
+            MultiObjective {
+                strategy: s.req(&mut o, "strategy", |s| {
+                    if s.pick(2) == 0 {
+                        (api::MultiStrategy::Sum, json!({"name": "sum"}))
+                    } else { let (weights, v) = b_fs(s); (api::MultiStrategy::WeightedSum { weights }, json!({"name": "weighted-sum", "weights": v})) }
+                }),
+                objectives: s.req(&mut o, "objectives", |s| s.list(3, |s| b_objective(s, true))),
+            },
+            "multi-objective",
+        ),
+    };
+    o.insert("type".to_string(), json!(name));
+    (obj, Value::Object(o))
+}
+
+fn b_problem(s: &mut Src) -> (api::Problem, Value) {
+    let (mut o, mut plan, mut fleet) = (Obj::new(), Obj::new(), Obj::new());
+    let p = api::Problem {
+        plan: api::Plan { jobs: s.req(&mut plan, "jobs", |s| s.list(2, b_job)), relations: s.opt(&mut plan, "relations", |s| s.list(2, b_relation)), clustering: s.opt(&mut plan, "clustering", b_clustering) },
+        fleet: api::Fleet {
+            vehicles: s.req(&mut fleet, "vehicles", |s| s.list(2, b_vehicle)),
+            profiles: s.req(&mut fleet, "profiles", |s| {
+                s.list(2, |s| { let mut p = Obj::new(); let v = api::MatrixProfile { name: s.req(&mut p, "name", b_text), speed: s.opt(&mut p, "speed", b_f) }; (v, Value::Object(p)) })
+            }),
+            resources: s.opt(&mut fleet, "resources", |s| {
+                s.list(2, |s| { let ((id, idv), (capacity, cv)) = (b_text(s), b_ints(s)); (api::VehicleResource::Reload { id, capacity }, json!({"type": "reload", "id": idv, "capacity": cv})) })
+            }),
+        },
+        objectives: s.opt(&mut o, "objectives", |s| s.list(3, |s| b_objective(s, false))),
+    };
+    o.insert("plan".to_string(), Value::Object(plan));
+    o.insert("fleet".to_string(), Value::Object(fleet));
+    (p, Value::Object(o))
+}
+
+fn b_matrix(s: &mut Src) -> (api::Matrix, Value) {
+    let mut o = Obj::new();
+    let m = api::Matrix {
+        profile: s.opt(&mut o, "profile", b_text),
+        timestamp: s.opt(&mut o, "timestamp", b_time),
+        travel_times: s.req(&mut o, "travelTimes", b_longs),
+        distances: s.req(&mut o, "distances", b_longs),
+        error_codes: s.opt(&mut o, "errorCodes", b_longs),
+    };
+    (m, Value::Object(o))
+}
+
+// ---------------------------------------------------------------------------------------------
+// directly generated solution documents
+// ---------------------------------------------------------------------------------------------
+
+fn b_interval(s: &mut Src) -> (sol::Interval, Value) { let (start, end) = (s.time(), s.time()); let v = json!({"start": start, "end": end}); (sol::Interval { start, end }, v) }
+
+fn b_schedule(s: &mut Src) -> (sol::Schedule, Value) {
+    let (arrival, departure) = (s.time(), s.time());
+    let v = json!({"arrival": arrival, "departure": departure});
+    (sol::Schedule { arrival, departure }, v)
+}
+
+fn b_commute_info(s: &mut Src) -> (sol::CommuteInfo, Value) {
+    let mut o = Obj::new();
+    let c = sol::CommuteInfo { location: s.req(&mut o, "location", b_loc), distance: s.req(&mut o, "distance", b_f), time: s.req(&mut o, "time", b_interval) };
+    (c, Value::Object(o))
+}
+
+fn b_activity(s: &mut Src) -> (sol::Activity, Value) {
+    const TYPES: [&str; 9] = ["departure", "arrival", "pickup", "delivery", "service", "replacement", "break", "reload", "recharge"];
+    let mut o = Obj::new();
+    let a = sol::Activity {
+        job_id: s.req(&mut o, "jobId", b_text),
+        activity_type: s.req(&mut o, "type", |s| { let t = TYPES[s.pick(9)]; (t.to_string(), json!(t)) }),
+        location: s.opt(&mut o, "location", b_loc),
+        time: s.opt(&mut o, "time", b_interval),
+        job_tag: s.opt(&mut o, "jobTag", b_text),
+        commute: s.opt(&mut o, "commute", |s| {
+            let mut c = Obj::new();
+            let v = sol::Commute { forward: s.opt(&mut c, "forward", b_commute_info), backward: s.opt(&mut c, "backward", b_commute_info) };
+            (v, Value::Object(c))
+        }),
+    };
+    (a, Value::Object(o))
+}
+
+fn b_stop(s: &mut Src) -> (sol::Stop, Value) {
+    let mut o = Obj::new();
+    s.untagged += 1;
+    let stop = if s.pick(3) == 0 {
+        sol::Stop::Transit(sol::TransitStop { time: s.req(&mut o, "time", b_schedule), load: s.req(&mut o, "load", b_ints), activities: s.req(&mut o, "activities", |s| s.list(2, b_activity)) })
+    } else {
+        sol::Stop::Point(sol::PointStop {
+            location: s.req(&mut o, "location", b_loc),
+            time: s.req(&mut o, "time", b_schedule),
+            distance: s.req(&mut o, "distance", b_long),
+            load: s.req(&mut o, "load", b_ints),
+            parking: s.opt(&mut o, "parking", b_interval),
+            activities: s.req(&mut o, "activities", |s| s.list(3, b_activity)),
+        })
+    };
+    (stop, Value::Object(o))
+}
+
+fn b_statistic(s: &mut Src) -> (sol::Statistic, Value) {
+    let (mut o, mut t) = (Obj::new(), Obj::new());
+    let st = sol::Statistic {
+        cost: s.req(&mut o, "cost", b_f),
+        distance: s.req(&mut o, "distance", b_long),
+        duration: s.req(&mut o, "duration", b_long),
+        times: sol::Timing {
+            driving: s.req(&mut t, "driving", b_long),
+            serving: s.req(&mut t, "serving", b_long),
+            waiting: s.req(&mut t, "waiting", b_long),
+            break_time: s.req(&mut t, "break", b_long),
+            commuting: s.req(&mut t, "commuting", b_long),
+            parking: s.req(&mut t, "parking", b_long),
+        },
+    };
+    o.insert("times".to_string(), Value::Object(t));
+    (st, Value::Object(o))
+}
+
+fn b_metrics(s: &mut Src) -> (sol::Metrics, Value) {
+    let mut o = Obj::new();
+    let m = sol::Metrics {
+        duration: s.req(&mut o, "duration", b_idx),
+        generations: s.req(&mut o, "generations", b_idx),
+        speed: s.req(&mut o, "speed", b_f),
+        evolution: s.req(&mut o, "evolution", |s| {
+            s.list(2, |s| {
+                let mut g = Obj::new();
+                let v = sol::Generation {
+                    number: s.req(&mut g, "number", b_idx),
+                    timestamp: s.req(&mut g, "timestamp", b_f),
+                    i_all_ratio: s.req(&mut g, "iAllRatio", b_f),
+                    i_1000_ratio: s.req(&mut g, "i1000Ratio", b_f),
+                    is_improvement: s.req(&mut g, "isImprovement", b_bool),
+                    population: s.req(&mut g, "population", |s| {
+                        let (individuals, v) = s.list(2, |s| {
+                            let ((difference, dv), (fitness, fv)) = (b_f(s), b_fs(s));
+                            (sol::Individual { difference, fitness }, json!({"difference": dv, "fitness": fv}))
+                        });
+                        (sol::Population { individuals }, json!({"individuals": v}))
+                    }),
+                };
+                (v, Value::Object(g))
+            })
+        }),
+    };
+    (m, Value::Object(o))
+}
+
+fn b_features(s: &mut Src) -> (sol::FeatureCollection, Value) {
+    let (features, v) = s.list(2, |s| {
+        let (k, val, a, b) = (s.text(), s.text(), s.float(), s.float());
+        let (geometry, gv) = if s.pick(2) == 0 { (sol::Geometry::Point { coordinates: (a, b) }, json!({"type": "Point", "coordinates": [a, b]})) } else { (sol::Geometry::LineString { coordinates: vec![(a, b), (b, a)] }, json!({"type": "LineString", "coordinates": [[a, b], [b, a]]})) };
+        (sol::Feature { properties: BTreeMap::from([(k.clone(), val.clone())]), geometry }, json!({"type": "Feature", "properties": {k: val}, "geometry": gv}))
+    });
+    (sol::FeatureCollection { features }, json!({"type": "FeatureCollection", "features": v}))
+}
+
+fn b_solution(s: &mut Src) -> (sol::Solution, Value) {
+    let mut o = Obj::new();
+    let solution = sol::Solution {
+        statistic: s.req(&mut o, "statistic", b_statistic),
+        tours: s.req(&mut o, "tours", |s| {
+            s.list(2, |s| {
+                let mut t = Obj::new();
+                let v = sol::Tour {
+                    vehicle_id: s.req(&mut t, "vehicleId", b_text),
+                    type_id: s.req(&mut t, "typeId", b_text),
+                    shift_index: s.req(&mut t, "shiftIndex", b_idx),
+                    stops: s.req(&mut t, "stops", |s| s.list(3, b_stop)),
+                    statistic: s.req(&mut t, "statistic", b_statistic),
+                };
+                (v, Value::Object(t))
+            })
+        }),
+        unassigned: s.opt(&mut o, "unassigned", |s| {
+            s.list(2, |s| {
+                let mut u = Obj::new();
+                let v = sol::UnassignedJob {
+                    job_id: s.req(&mut u, "jobId", b_text),
+                    reasons: s.req(&mut u, "reasons", |s| {
+                        s.list(2, |s| {
+                            let mut r = Obj::new();
+                            let v = sol::UnassignedJobReason {
+                                code: s.req(&mut r, "code", b_text),
+                                description: s.req(&mut r, "description", b_text),
+                                details: s.opt(&mut r, "details", |s| {
+                                    s.list(2, |s| {
+                                        let ((vehicle_id, a), (shift_index, b)) = (b_text(s), b_idx(s));
+                                        (sol::UnassignedJobDetail { vehicle_id, shift_index }, json!({"vehicleId": a, "shiftIndex": b}))
+                                    })
+                                }),
+                            };
+                            (v, Value::Object(r))
+                        })
+                    }),
+                };
+                (v, Value::Object(u))
+            })
+        }),
+        violations: s.opt(&mut o, "violations", |s| {
+            s.list(2, |s| {
+                let ((vehicle_id, a), (shift_index, b)) = (b_text(s), b_idx(s));
+                (sol::Violation::Break { vehicle_id, shift_index }, json!({"type": "break", "vehicleId": a, "shiftIndex": b}))
+            })
+        }),
+        extras: s.opt(&mut o, "extras", |s| {
+            let mut e = Obj::new();
+            let v = sol::Extras { metrics: s.opt(&mut e, "metrics", b_metrics), features: s.opt(&mut e, "features", b_features) };
+            (v, Value::Object(e))
+        }),
+    };
+    (solution, Value::Object(o))
+}
+
+// ---------------------------------------------------------------------------------------------
+// sub-checks (a)/(b): generated documents
+// ---------------------------------------------------------------------------------------------
+
+fn count_doc(kind: &str, s: &Src, case_hash: u64, stats: &Stats) {
+    stats.eval();
+    stats.class_n(&format!("{kind}.optional_fields_set"), s.optional as u64);
+    stats.class_n(&format!("{kind}.untagged_values"), s.untagged as u64);
+    if s.optional >= 3 || s.untagged > 0 { stats.class(&format!("{kind}.nontrivial")); stats.nontrivial(case_hash); }
+}
+
+pub struct FullProblemProp;
+
+impl Prop for FullProblemProp {
+    type Case = Stream;
+    fn name(&self) -> &'static str { "rt_problem_full" }
+    fn strategy(&self, _tier: Tier) -> BoxedStrategy<Stream> { stream(160).boxed() }
+    fn cases(&self, tier: Tier) -> u32 { tier.pick(6_000, 300_000) }
+    fn shards(&self, _tier: Tier) -> u32 { 16 }
+    fn check(&self, c: &Stream, stats: &Stats) -> Check {
+        let mut s = Src::new(c);
+        let (problem, expected) = b_problem(&mut s);
+        let (text, tree) = law("problem_doc", &problem, &ser_problem, &de_problem, stats)?;
+        expect_tree("problem_doc", &expected, &tree, &text, stats)?;
+        alias_check("problem_doc", &problem, "maxDuration", "shiftTime", &de_problem, stats)?;
+        let (matrix, expected) = b_matrix(&mut s);
+        let (text, tree) = law("matrix_doc", &matrix, &ser_matrix, &de_matrix, stats)?;
+        expect_tree("matrix_doc", &expected, &tree, &text, stats)?;
+        alias_check("matrix_doc", &matrix, "travelTimes", "durations", &de_matrix, stats)?;
+        count_doc("problem_doc", &s, hash_of(&format!("{c:?}")), stats);
+        for (name, present) in [
+            ("clustering", problem.plan.clustering.is_some()),
+            ("relations", problem.plan.relations.is_some()),
+            ("objectives", problem.objectives.is_some()),
+            ("resources", problem.fleet.resources.is_some()),
+            ("recharges", problem.fleet.vehicles.iter().flat_map(|v| v.shifts.iter()).any(|s| s.recharges.is_some())),
+            ("break_optional", text_has_break(&problem, true)),
+            ("break_required", text_has_break(&problem, false)),
+            ("multi_objective", problem.objectives.iter().flatten().any(|o| matches!(o, api::Objective::MultiObjective { .. }))),
+        ] { if present { stats.class(&format!("problem_doc.with.{name}")); } }
+        stats.sample(1, || json!({"kind": "rt_problem_full", "optional_fields_set": s.optional, "untagged_values": s.untagged, "document": tree}));
+        Ok(())
+    }
+}
+
+fn text_has_break(p: &api::Problem, optional: bool) -> bool {
+    p.fleet.vehicles.iter().flat_map(|v| v.shifts.iter()).flat_map(|s| s.breaks.iter().flatten()).any(|b| matches!(b, api::VehicleBreak::Optional { .. }) == optional)
+}
+
+pub struct SolutionDocProp;
+
+impl Prop for SolutionDocProp {
+    type Case = Stream;
+    fn name(&self) -> &'static str { "rt_solution_doc" }
+    fn strategy(&self, _tier: Tier) -> BoxedStrategy<Stream> { stream(160).boxed() }
+    fn cases(&self, tier: Tier) -> u32 { tier.pick(4_000, 200_000) }
+    fn shards(&self, _tier: Tier) -> u32 { 16 }
+    fn check(&self, c: &Stream, stats: &Stats) -> Check {
+        let mut s = Src::new(c);
+        let (solution, expected) = b_solution(&mut s);
+        let (text, tree) = law("solution_doc", &solution, &ser_solution, &de_solution, stats)?;
+        expect_tree("solution_doc", &expected, &tree, &text, stats)?;
+        count_doc("solution_doc", &s, hash_of(&format!("{c:?}")), stats);
+        let stops = || solution.tours.iter().flat_map(|t| t.stops.iter());
+        for (name, present) in [
+            ("transit_stop", stops().any(|s| matches!(s, sol::Stop::Transit(_)))),
+            ("point_stop", stops().any(|s| matches!(s, sol::Stop::Point(_)))),
+            ("parking", stops().any(|s| s.as_point().is_some_and(|p| p.parking.is_some()))),
+            ("commute", stops().flat_map(|s| s.activities().iter()).any(|a| a.commute.as_ref().is_some_and(|c| c.forward.is_some() || c.backward.is_some()))),
+            ("violations", solution.violations.as_ref().is_some_and(|v| !v.is_empty())),
+            ("unassigned_details", solution.unassigned.iter().flatten().flat_map(|u| u.reasons.iter()).any(|r| r.details.is_some())),
+            ("metrics", solution.extras.as_ref().is_some_and(|e| e.metrics.is_some())),
+            ("geojson_features", solution.extras.as_ref().is_some_and(|e| e.features.is_some())),
+        ] { if present { stats.class(&format!("solution_doc.with.{name}")); } }
+        stats.sample(1, || json!({"kind": "rt_solution_doc", "optional_fields_set": s.optional, "document": tree}));
+        Ok(())
+    }
+}
+
+/// pgen documents (valid problems + their matrices).
+pub struct PgenProblemProp;
+
+impl Prop for PgenProblemProp {
+    type Case = ProblemSpec;
+    fn name(&self) -> &'static str { "rt_problem_pgen" }
+    fn strategy(&self, tier: Tier) -> BoxedStrategy<ProblemSpec> { problem_spec(tier.pick(8, 20)).boxed() }
+    fn cases(&self, tier: Tier) -> u32 { tier.pick(2_000, 100_000) }
+    fn shards(&self, _tier: Tier) -> u32 { 16 }
+    fn check(&self, c: &ProblemSpec, stats: &Stats) -> Check {
+        let r = render(c);
+        law("problem_doc", &r.problem, &ser_problem, &de_problem, stats)?;
+        alias_check("problem_doc", &r.problem, "maxDuration", "shiftTime", &de_problem, stats)?;
+        for m in r.matrices.iter() { law("matrix_doc", m, &ser_matrix, &de_matrix, stats)?; alias_check("matrix_doc", m, "travelTimes", "durations", &de_matrix, stats)?; }
+        stats.eval();
+        stats.class("pgen_doc.documents");
+        if r.info.features.len() >= 3 || r.info.features.iter().any(|f| f == "break") { stats.class("pgen_doc.nontrivial"); stats.nontrivial(hash_of(&format!("{c:?}"))); }
+        Ok(())
+    }
+}
+
+// ---------------------------------------------------------------------------------------------
+// sub-checks (b)/(c): solution written by the solver; fed back as initial solution
+// ---------------------------------------------------------------------------------------------
+
+#[derive(Clone, Debug, Serialize, Deserialize)]
+pub struct SolvedCase { pub spec: ProblemSpec, pub config: u8, }
+
+pub struct SolvedProp;
+
+fn is_customer(t: &str) -> bool { matches!(t, "pickup" | "delivery" | "replacement" | "service") }
+
+type TourKey = (String, usize);
+type Act = (String, Option<String>, usize);
+
+/// Ok(false): the case hit an open known finding and was excluded.
+fn init_round_trip(core: &Arc<CoreProblem>, solution: &sol::Solution, text: &str, seed: u64, stats: &Stats) -> Result<bool, Failure> {
+    let coord = core.extras.get_coord_index().ok_or_else(|| Failure::new("harness:no-coord-index", "core problem has no coord index"))?;
+    let mut expected: BTreeMap<TourKey, Vec<Act>> = BTreeMap::new();
+    for tour in solution.tours.iter() {
+        let acts = expected.entry((tour.vehicle_id.clone(), tour.shift_index)).or_default();
+        for stop in tour.stops.iter() {
+            for a in stop.activities().iter().filter(|a| is_customer(&a.activity_type)) {
+                let loc = a.location.as_ref().or(stop.location()).and_then(|l| coord.get_by_loc(l));
+                let loc = loc.ok_or_else(|| Failure::new("harness:solution-location", format!("activity of job {} has no resolvable location", a.job_id)))?;
+                acts.push((a.job_id.clone(), a.job_tag.clone(), loc));
+            }
+        }
+    }
+    let random: Arc<dyn Random> = Arc::new(SeededRandom::new(seed));
+    let back = match guard(|| sol::read_init_solution(BufReader::new(text.as_bytes()), core.clone(), random)) {
+        Ok(Ok(s)) => s,
+        Ok(Err(e)) => {
+            let e = e.to_string();
+            let sig = if e.contains("cannot match job") {
+                "init:read-error:cannot-match-job"
+            } else if e.contains("potential double assignment") {
+                "init:read-error:double-assignment"
+            } else if e.contains("cannot match '") { "init:read-error:cannot-match-break-or-reload" } else { "init:read-error:other" };
+            if known_open(P, sig) { stats.known_hit(sig); return Ok(false); }
+            return Err(Failure::new(sig, format!("read_init_solution rejected the solution the solver wrote for the same problem: {e}\n--- solution:\n{}", compact(text))));
+        }
+        Err(p) => return Err(Failure::new(format!("init:read-panic:{}", panic_site(&p)), format!("read_init_solution panicked: {p}\n--- solution:\n{}", compact(text)))),
+    };
+    let mut actual: BTreeMap<TourKey, Vec<Act>> = BTreeMap::new();
+    for route in back.routes.iter() {
+        let dimens = &route.actor.vehicle.dimens;
+        let acts = actual.entry((dimens.get_vehicle_id().cloned().unwrap_or_default(), dimens.get_shift_index().copied().unwrap_or(usize::MAX))).or_default();
+        for a in route.tour.all_activities() {
+            let Some(single) = a.job.as_ref() else { continue };
+            if !single.dimens.get_job_type().is_some_and(|t| is_customer(t)) { continue; }
+            let id = single.dimens.get_job_id().cloned().or_else(|| Multi::roots(single).and_then(|m| m.dimens.get_job_id().cloned())).unwrap_or_default();
+            let tag = single.dimens.get_place_tags().and_then(|tags| tags.iter().find(|(i, _)| *i == a.place.idx).map(|(_, t)| t.clone()));
+            acts.push((id, tag, a.place.location));
+        }
+    }
+    if expected != actual {
+        let key = expected.keys().chain(actual.keys()).find(|k| expected.get(*k) != actual.get(*k)).cloned().unwrap_or_default();
+        let same_jobs = expected.get(&key).map(|v| v.iter().map(|a| &a.0).collect::<Vec<_>>()) == actual.get(&key).map(|v| v.iter().map(|a| &a.0).collect::<Vec<_>>());
+        let sig = if same_jobs { "init:place-differs" } else { "init:activities-differ" };
+        if known_open(P, sig) { stats.known_hit(sig); return Ok(false); }
+        return Err(Failure::new(sig, format!("vehicle {key:?}: (job, tag of place used, location) written {:?} but reconstructed {:?}\n--- solution:\n{}", expected.get(&key), actual.get(&key), compact(text))));
+    }
+    let exp_un: BTreeSet<String> = solution.unassigned.iter().flatten().map(|u| u.job_id.clone()).collect();
+    let act_un: BTreeSet<String> = back.unassigned.iter().filter(|(j, _)| j.dimens().get_vehicle_id().is_none()).filter_map(|(j, _)| j.dimens().get_job_id().cloned()).collect();
+    ensure!(exp_un == act_un, "init:unassigned-differ", "unassigned written {exp_un:?} but reconstructed {act_un:?}\n--- solution:\n{}", compact(text));
+    Ok(true)
+}
+
+fn compact(text: &str) -> String { serde_json::from_str::<Value>(text).map(|v| v.to_string()).unwrap_or_else(|_| text.to_string()) }
+
+impl Prop for SolvedProp {
+    type Case = SolvedCase;
+    fn name(&self) -> &'static str { "rt_solved_init" }
+    fn strategy(&self, tier: Tier) -> BoxedStrategy<SolvedCase> { (problem_spec(tier.pick(10, 20)), 0u8..4).prop_map(|(spec, config)| SolvedCase { spec, config }).boxed() }
+    fn cases(&self, tier: Tier) -> u32 { tier.pick(2_400, 60_000) }
+    fn shards(&self, _tier: Tier) -> u32 { 16 }
+    fn max_shrink_iters(&self) -> u32 { 300 }
+    fn check(&self, c: &SolvedCase, stats: &Stats) -> Check {
+        let r = render(&c.spec);
+        let core = read_core(&r.problem, &r.matrices).map_err(|e| Failure::new("harness:generator-invalid", format!("generated problem was rejected: {e}")))?;
+        let mut cfg = json!({"termination": {"maxGenerations": if c.config == 2 { 1 } else { 5 }}, "environment": {"parallelism": {"numThreadPools": 1, "threadsPerPool": 1}, "logging": {"enabled": false}}});
+        if c.config % 2 == 1 { cfg["telemetry"] = json!({"metrics": {"enabled": true, "trackPopulation": 2}}); }
+        if c.config == 3 { cfg["output"] = json!({"includeGeojson": true}); }
+        let (solution, text) = match solve_to_solution(core.clone(), &cfg) {
+            Ok(x) => x,
+            // a solver error / crash on a valid problem is the subject of C01-C03/C07, not of this property: counted only
+            Err(f) if f.signature == "solve:error" || f.signature.starts_with("solve:panic") => {
+                stats.class("solved_doc.outside_c11.solver_failed");
+                stats.sample(3, || json!({"kind": "rt_solved_init", "solver_failed": f.message, "case": c}));
+                return Ok(());
+            }
+            Err(f) => return Err(f),
+        };
+        let problem_doc = || format!("--- problem+matrices:\n{}", json!({"problem": r.problem, "matrices": r.matrices}));
+        let with_problem = |f: Failure| Failure::new(f.signature, format!("{}\n{}", f.message, problem_doc()));
+        // (b) the document written by the solver loses nothing through parse -> serialise, and obeys the law
+        let written: Value = serde_json::from_str(&text).map_err(|e| Failure::new("solved_doc:written-text-not-json", format!("{e}\n{text}")))?;
+        let (_, tree) = law("solved_doc", &solution, &ser_solution, &de_solution, stats)?;
+        same("solved_doc:lost-by-parse".to_string(), "solver-written document (left) differs from ser(parse(it)) (right)", &written, &tree, false, stats, &text)?;
+        stats.class("solved_doc.documents");
+        if solution.extras.as_ref().is_some_and(|e| e.metrics.is_some()) { stats.class("solved_doc.with.metrics"); }
+        // (c) initial-solution round trip
+        stats.eval();
+        if !init_round_trip(&core, &solution, &text, hash_of(&format!("{c:?}")), stats).map_err(with_problem)? { return Ok(()); }
+        let assigned: BTreeSet<&String> = solution.tours.iter().flat_map(|t| t.stops.iter()).flat_map(|s| s.activities().iter()).filter(|a| is_customer(&a.activity_type)).map(|a| &a.job_id).collect();
+        let jobs = || r.problem.plan.jobs.iter().filter(|j| assigned.contains(&j.id));
+        let multi_task = jobs().any(|j| j.all_tasks_iter().count() > 1);
+        let multi_place = jobs().any(|j| j.all_tasks_iter().any(|t| t.places.len() > 1 || t.places.iter().any(|p| p.times.as_ref().is_some_and(|w| w.len() > 1))));
+        let shared_location = jobs().any(|j| j.all_tasks_iter().any(|t| t.places.len() > 1 && format!("{:?}", t.places[0].location) == format!("{:?}", t.places[1].location)));
+        let has = |t: &str| solution.tours.iter().flat_map(|x| x.stops.iter()).flat_map(|s| s.activities().iter()).any(|a| a.activity_type == t);
+        for (name, present) in [
+            ("multi_task_job_assigned", multi_task),
+            ("multi_place_or_window_job_assigned", multi_place),
+            ("places_of_a_task_share_location", shared_location),
+            ("break_assigned", has("break")),
+            ("reload_assigned", has("reload")),
+            ("has_unassigned", solution.unassigned.as_ref().is_some_and(|u| !u.is_empty())),
+            ("multi_tour", solution.tours.len() > 1),
+            ("second_shift_used", solution.tours.iter().any(|t| t.shift_index > 0)),
+        ] { if present { stats.class(&format!("init.{name}")); } }
+        stats.class("init.round_trips");
+        if multi_task || multi_place { stats.class("init.nontrivial"); stats.nontrivial(hash_of(&format!("{c:?}"))); }
+        stats.sample(1, || json!({"kind": "rt_solved_init", "features": r.info.features, "jobs": r.problem.plan.jobs.len(), "tours": solution.tours.len(), "assigned": assigned.len()}));
+        Ok(())
+    }
+}
+
+// ---------------------------------------------------------------------------------------------
+// sub-check (d): CSV import
+// ---------------------------------------------------------------------------------------------
+
+#[derive(Clone, Debug, Serialize, Deserialize)]
+pub struct CsvJob {
+    /// 0 delivery, 1 pickup, 2 service, 3 pickup + delivery rows sharing the id
+    pub kind: u8,
+    pub at: [(i32, i32); 2],
+    pub demand: u8,
+    pub duration: u16,
+    pub window: Option<(u16, u16)>,
+    /// second row of a pair is written at the end of the table instead of right after the first
+    pub split: bool,
+}
+
+#[derive(Clone, Debug, Serialize, Deserialize)]
+pub struct CsvVehicle { pub at: (i32, i32), pub capacity: u16, pub start: u16, pub length: u16, pub amount: u8, pub profile: u8, }
+
+#[derive(Clone, Debug, Serialize, Deserialize)]
+pub struct CsvCase { pub jobs: Vec<CsvJob>, pub vehicles: Vec<CsvVehicle>, pub leading_blank_line: bool, }
+
+pub struct CsvProp;
+
+struct JobRow { id: String, lat: f64, lng: f64, demand: i32, duration: usize, window: Option<(String, String)>, }
+
+fn degrees(v: (i32, i32)) -> (f64, f64) { (v.0 as f64 / 1e5, v.1 as f64 / 1e5) }
+
+fn same_coord(l: &ApiLocation, lat: f64, lng: f64) -> bool {
+    matches!(l, ApiLocation::Coordinate { lat: a, lng: b } if (ulp_key(*a) - ulp_key(lat)).abs() <= 1 && (ulp_key(*b) - ulp_key(lng)).abs() <= 1)
+}
+
+impl Prop for CsvProp {
+    type Case = CsvCase;
+    fn name(&self) -> &'static str { "rt_csv_import" }
+    fn strategy(&self, _tier: Tier) -> BoxedStrategy<CsvCase> {
+        let at = || (-8_000_000i32..8_000_000, -17_000_000i32..17_000_000);
+        let job = (0u8..4, [at(), at()], 1u8..20, prop_oneof![Just(0u16), 1u16..900], prop::option::weighted(0.5, (0u16..20_000, 0u16..20_000)), any::<bool>())
+            .prop_map(|(kind, at, demand, duration, window, split)| CsvJob { kind, at, demand, duration, window, split });
+        let vehicle = (at(), 1u16..200, 0u16..10_000, 0u16..40_000, 1u8..5, 0u8..3).prop_map(|(at, capacity, start, length, amount, profile)| CsvVehicle { at, capacity, start, length, amount, profile });
+        (prop::collection::vec(job, 1..8), prop::collection::vec(vehicle, 1..4), any::<bool>()).prop_map(|(jobs, vehicles, leading_blank_line)| CsvCase { jobs, vehicles, leading_blank_line }).boxed()
+    }
+    fn cases(&self, tier: Tier) -> u32 { tier.pick(2_400, 120_000) }
+    fn shards(&self, _tier: Tier) -> u32 { 16 }
+    fn check(&self, c: &CsvCase, stats: &Stats) -> Check {
+        const PROFILES: [&str; 3] = ["car", "truck", "bike"];
+        let (mut rows, mut tail): (Vec<JobRow>, Vec<JobRow>) = (vec![], vec![]);
+        for (i, j) in c.jobs.iter().enumerate() {
+            let window = j.window.map(|(a, l)| (fmt_time(T0 + a as i64), fmt_time(T0 + a as i64 + l as i64)));
+            let row = |k: usize, demand: i32| { let (lat, lng) = degrees(j.at[k]); JobRow { id: format!("job{i}"), lat, lng, demand, duration: j.duration as usize + k, window: window.clone() } };
+            match j.kind {
+                0 => rows.push(row(0, -(j.demand as i32))),
+                1 => rows.push(row(0, j.demand as i32)),
+                2 => rows.push(row(0, 0)),
+                _ => { rows.push(row(0, j.demand as i32)); if j.split { tail.push(row(1, -(j.demand as i32))) } else { rows.push(row(1, -(j.demand as i32))) } }
+            }
+        }
+        rows.append(&mut tail);
+        let lead = if c.leading_blank_line { "\n" } else { "" };
+        let jobs_csv = rows.iter().fold(format!("{lead}ID,LAT,LNG,DEMAND,DURATION,TW_START,TW_END\n"), |acc, r| {
+            let (a, b) = r.window.clone().unwrap_or_default();
+            format!("{acc}{},{},{},{},{},{a},{b}\n", r.id, r.lat, r.lng, r.demand, r.duration)
+        });
+        let shift = |v: &CsvVehicle| (fmt_time(T0 + v.start as i64), fmt_time(T0 + v.start as i64 + v.length as i64));
+        let vehicles_csv = c.vehicles.iter().enumerate().fold(format!("{lead}ID,LAT,LNG,CAPACITY,TW_START,TW_END,AMOUNT,PROFILE\n"), |acc, (i, v)| {
+            let ((lat, lng), (a, b)) = (degrees(v.at), shift(v));
+            format!("{acc}vehicle{i},{lat},{lng},{},{a},{b},{},{}\n", v.capacity, v.amount, PROFILES[v.profile as usize % 3])
+        });
+        let tables = format!("--- jobs.csv:\n{jobs_csv}--- vehicles.csv:\n{vehicles_csv}");
+        let problem = match guard(|| import_problem("csv", Some(vec![BufReader::new(jobs_csv.as_bytes()), BufReader::new(vehicles_csv.as_bytes())]))) {
+            Ok(Ok(p)) => p,
+            Ok(Err(e)) => return Err(Failure::new("csv:import-rejected", format!("documented tables rejected: {e}\n{tables}"))),
+            Err(p) => return Err(Failure::new(format!("csv:import-panic:{}", panic_site(&p)), format!("csv import panicked: {p}\n{tables}"))),
+        };
+        let doc = || format!("{tables}--- imported:\n{}", serde_json::to_string(&problem).unwrap_or_default());
+        // jobs: every row is found again as one task of the right kind
+        let ids: BTreeSet<&String> = rows.iter().map(|r| &r.id).collect();
+        let imported: Vec<&String> = problem.plan.jobs.iter().map(|j| &j.id).collect();
+        ensure!(imported.len() == ids.len() && imported.iter().all(|i| ids.contains(i)), "csv:job-ids", "job ids {imported:?} differ from the table's {ids:?}\n{}", doc());
+        for job in problem.plan.jobs.iter() {
+            let none = vec![];
+            for (kind, tasks, sign) in [("pickup", &job.pickups, 1), ("delivery", &job.deliveries, -1), ("service", &job.services, 0)] {
+                let tasks = tasks.as_ref().unwrap_or(&none);
+                let mine = rows.iter().filter(|r| r.id == job.id && r.demand.signum() == sign).collect::<Vec<_>>();
+                ensure!(tasks.len() == mine.len(), "csv:task-kind-by-sign", "job {}: {} {kind} task(s) for {} row(s) with demand sign {sign}\n{}", job.id, tasks.len(), mine.len(), doc());
+                let mut used = vec![false; tasks.len()];
+                for r in mine {
+                    let times = r.window.as_ref().map(|(a, b)| vec![vec![a.clone(), b.clone()]]);
+                    let demand = (r.demand != 0).then(|| vec![r.demand.abs()]);
+                    let found = tasks.iter().enumerate().position(|(k, t)| !used[k] && t.places.len() == 1 && same_coord(&t.places[0].location, r.lat, r.lng) && t.places[0].duration == r.duration as f64 && t.places[0].times == times && t.demand == demand);
+                    ensure!(found.is_some(), "csv:job-row-not-found", "job {}: row (lat {}, lng {}, demand {}, duration {}, window {:?}) has no matching {kind} task\n{}", job.id, r.lat, r.lng, r.demand, r.duration, r.window, doc());
+                    used[found.unwrap()] = true;
+                }
+            }
+            ensure!(job.replacements.as_ref().is_none_or(|t| t.is_empty()), "csv:unexpected-replacement", "job {} got replacement tasks\n{}", job.id, doc());
+        }
+        // vehicles: every cell is found again
+        ensure!(problem.fleet.vehicles.len() == c.vehicles.len(), "csv:vehicle-types", "{} vehicle types for {} rows\n{}", problem.fleet.vehicles.len(), c.vehicles.len(), doc());
+        for (i, v) in c.vehicles.iter().enumerate() {
+            let id = format!("vehicle{i}");
+            let ((lat, lng), (a, b)) = (degrees(v.at), shift(v));
+            let t = problem.fleet.vehicles.iter().find(|t| t.type_id == id);
+            ensure!(t.is_some(), "csv:vehicle-type-id", "vehicle type {id} not found\n{}", doc());
+            let t = t.unwrap();
+            let ok = t.capacity == vec![v.capacity as i32]
+                && t.profile.matrix == PROFILES[v.profile as usize % 3]
+                && t.vehicle_ids.len() == v.amount as usize
+                && t.shifts.len() == 1
+                && t.shifts[0].start.earliest == a
+                && same_coord(&t.shifts[0].start.location, lat, lng)
+                && t.shifts[0].end.as_ref().is_some_and(|e| e.latest == b && same_coord(&e.location, lat, lng));
+            ensure!(ok, "csv:vehicle-row-not-found", "vehicle type {id}: capacity/profile/amount/shift/depot differ from the row\n{}", doc());
+        }
+        let used_profiles: BTreeSet<&str> = c.vehicles.iter().map(|v| PROFILES[v.profile as usize % 3]).collect();
+        let fleet_profiles: BTreeSet<&str> = problem.fleet.profiles.iter().map(|p| p.name.as_str()).collect();
+        ensure!(used_profiles == fleet_profiles && problem.fleet.profiles.len() == fleet_profiles.len(), "csv:profiles", "fleet profiles {fleet_profiles:?} vs the table's {used_profiles:?}\n{}", doc());
+        // amount => that many distinct vehicles; the imported problem is valid
+        let shared_profile = used_profiles.len() < c.vehicles.len();
+        let excluded = shared_profile && known_open(P, "csv:duplicate-vehicle-ids");
+        if excluded {
+            stats.known_hit("csv:duplicate-vehicle-ids");
+        } else {
+            let distinct: BTreeSet<&String> = problem.fleet.vehicles.iter().flat_map(|t| t.vehicle_ids.iter()).collect();
+            let amount: usize = c.vehicles.iter().map(|v| v.amount as usize).sum();
+            ensure!(distinct.len() == amount, "csv:duplicate-vehicle-ids", "AMOUNT columns sum to {amount} vehicles but the imported fleet has {} distinct vehicle ids\n{}", distinct.len(), doc());
+            match guard(|| problem.clone().read_pragmatic()) {
+                Ok(Ok(_)) => {}
+                Ok(Err(e)) => {
+                    let codes = e.errors.iter().map(|x| x.code.clone()).collect::<Vec<_>>().join("+");
+                    return Err(Failure::new(format!("csv:imported-problem-invalid:{codes}"), format!("imported problem fails validation: {e}\n{}", doc())));
+                }
+                Err(p) => return Err(Failure::new(format!("csv:read-panic:{}", panic_site(&p)), format!("reading the imported problem panicked: {p}\n{}", doc()))),
+            }
+            stats.class("csv.validated");
+        }
+        stats.eval();
+        let pair = c.jobs.iter().any(|j| j.kind == 3);
+        for (name, present) in [
+            ("pickup_delivery_pair", pair),
+            ("pair_rows_not_adjacent", c.jobs.iter().any(|j| j.kind == 3 && j.split) && c.jobs.len() > 1),
+            ("service_zero_demand", c.jobs.iter().any(|j| j.kind == 2)),
+            ("job_without_window", c.jobs.iter().any(|j| j.window.is_none())),
+            ("job_with_window", c.jobs.iter().any(|j| j.window.is_some())),
+            ("types_share_profile", shared_profile),
+            ("distinct_profiles", used_profiles.len() > 1),
+            ("amount_above_one", c.vehicles.iter().any(|v| v.amount > 1)),
+        ] { if present { stats.class(&format!("csv.{name}")); } }
+        if pair && c.vehicles.len() > 1 { stats.class("csv.nontrivial"); stats.nontrivial(hash_of(&format!("{c:?}"))); }
+        stats.sample(1, || json!({"kind": "rt_csv_import", "jobs_csv": jobs_csv, "vehicles_csv": vehicles_csv}));
+        Ok(())
+    }
+}
+
+// ---------------------------------------------------------------------------------------------
+// sub-check (e): raw JSON spellings / structural mutations of problem documents
+// ---------------------------------------------------------------------------------------------
+
+#[derive(Clone, Debug, Serialize, Deserialize)]
+pub struct Mutation {
+    /// 0 drop member, 1 duplicate member, 2 reverse members, 3 rotate members, 4 respell number,
+    /// 5 \u-escape string value, 6 \u-escape member key, 7 member value -> null, 8 extra whitespace
+    pub kind: u8,
+    pub target: u16,
+    pub variant: u8,
+}
+
+#[derive(Clone, Debug, Serialize, Deserialize)]
+pub struct RawCase { pub base: Stream, pub mutations: Vec<Mutation>, }
+
+pub struct RawJsonProp;
+
+/// counters: [objects, members, numbers, strings]
+fn count_nodes(v: &Value, c: &mut [usize; 4]) {
+    match v {
+        Value::Object(o) => { c[0] += 1; c[1] += o.len(); o.values().for_each(|x| count_nodes(x, c)); }
+        Value::Array(a) => a.iter().for_each(|x| count_nodes(x, c)),
+        Value::Number(_) => c[2] += 1,
+        Value::String(_) => c[3] += 1,
+        _ => {}
+    }
+}
+
+fn escape_all(s: &str) -> String { format!("\"{}\"", s.encode_utf16().map(|u| format!("\\u{u:04x}")).collect::<String>()) }
+
+fn respell(r: &str, variant: u8) -> String {
+    let has_exp = r.contains(['e', 'E']);
+    let plain_int = !has_exp && !r.contains('.');
+    match variant % 6 {
+        0 if plain_int => format!("{r}.0"),
+        1 if !has_exp => format!("{r}e0"),
+        2 if !has_exp => format!("{r}E+0"),
+        3 if !plain_int && !has_exp => format!("{r}000"),
+        4 if plain_int && r.trim_start_matches('-') != "0" => format!("{r}0e-1"),
+        5 if plain_int && r.ends_with("00") => format!("{}e2", &r[..r.len() - 2]),
+        _ => r.to_string(),
+    }
+}
+
+struct Emitter {
+    /// (kind, resolved node index, variant)
+    targets: Vec<(u8, usize, u8)>,
+    c: [usize; 4],
+    applied: BTreeSet<u8>,
+    whitespace: bool,
+}
+
+impl Emitter {
+    fn hit(&mut self, kind: u8, idx: usize) -> Option<u8> { let v = self.targets.iter().find(|t| t.0 == kind && t.1 == idx).map(|t| t.2); if v.is_some() { self.applied.insert(kind); } v }
+    fn ws(&self, out: &mut String) { if self.whitespace { out.push_str(" \n\t\r "); } }
+    fn emit(&mut self, v: &Value, out: &mut String) {
+        match v {
+            Value::Object(o) => {
+                let oi = self.c[0];
+                self.c[0] += 1;
+                // members are numbered in document order, so number before reordering
+                let mut items = o.iter().map(|(k, x)| { let mi = self.c[1]; self.c[1] += 1; let mut val = String::new(); self.emit(x, &mut val); (mi, k, val) }).collect::<Vec<_>>();
+                if self.hit(2, oi).is_some() { items.reverse(); }
+                if let Some(k) = self.hit(3, oi) { if !items.is_empty() { let n = items.len(); items.rotate_left((1 + k as usize) % n); } }
+                out.push('{');
+                let mut first = true;
+                for (mi, k, val) in items {
+                    if self.hit(0, mi).is_some() { continue; }
+                    let copies = if self.hit(1, mi).is_some() { 2 } else { 1 };
+                    let val = if self.hit(7, mi).is_some() { "null".to_string() } else { val };
+                    let key = if self.hit(6, mi).is_some() { escape_all(k) } else { Value::String(k.clone()).to_string() };
+                    for _ in 0..copies { if !first { out.push(','); } first = false; self.ws(out); out.push_str(&key); self.ws(out); out.push(':'); out.push_str(&val); }
+                }
+                out.push('}');
+            }
+            Value::Array(a) => { out.push('['); for (i, x) in a.iter().enumerate() { if i > 0 { out.push(','); } self.ws(out); self.emit(x, out); } out.push(']'); }
+            Value::Number(n) => { let ni = self.c[2]; self.c[2] += 1; let r = n.to_string(); out.push_str(&match self.hit(4, ni) { Some(variant) => respell(&r, variant), None => r, }); }
+            Value::String(s) => { let si = self.c[3]; self.c[3] += 1; out.push_str(&if self.hit(5, si).is_some() { escape_all(s) } else { v.to_string() }); }
+            other => out.push_str(&other.to_string()),
+        }
+    }
+}
+
+impl Prop for RawJsonProp {
+    type Case = RawCase;
+    fn name(&self) -> &'static str { "rt_raw_json" }
+    fn strategy(&self, _tier: Tier) -> BoxedStrategy<RawCase> {
+        let m = (0u8..9, any::<u16>(), any::<u8>()).prop_map(|(kind, target, variant)| Mutation { kind, target, variant });
+        (stream(120), prop::collection::vec(m, 1..5)).prop_map(|(base, mutations)| RawCase { base, mutations }).boxed()
+    }
+    fn cases(&self, tier: Tier) -> u32 { tier.pick(6_000, 300_000) }
+    fn shards(&self, _tier: Tier) -> u32 { 16 }
+    fn check(&self, c: &RawCase, stats: &Stats) -> Check {
+        let (problem, _) = b_problem(&mut Src::new(&c.base));
+        let text = ser_problem(&problem).map_err(|e| Failure::new("raw_json:serialize-failed", e))?;
+        let tree: Value = serde_json::from_str(&text).map_err(|e| Failure::new("raw_json:written-text-not-json", format!("{e}\n{text}")))?;
+        let mut totals = [0usize; 4];
+        count_nodes(&tree, &mut totals);
+        let total_of = |kind: u8| match kind { 2 | 3 => totals[0], 4 => totals[2], 5 => totals[3], _ => totals[1], };
+        let targets = c.mutations.iter().map(|m| (m.kind, pick_idx(m.target, total_of(m.kind)), m.variant)).collect();
+        let mut e = Emitter { targets, c: [0; 4], applied: BTreeSet::new(), whitespace: c.mutations.iter().any(|m| m.kind == 8) };
+        let mut raw = String::new();
+        e.emit(&tree, &mut raw);
+        if e.whitespace { e.applied.insert(8); }
+        let preserving = !e.applied.is_empty() && e.applied.iter().all(|k| matches!(k, 2 | 3 | 5 | 6 | 8));
+        let parsed = parse_guarded("raw_json", "a raw document", &raw, &de_problem)?;
+        stats.eval();
+        for k in e.applied.iter() {
+            stats.class(&format!("raw_json.mutation.{}", ["drop_member", "duplicate_member", "reverse_members", "rotate_members", "number_spelling", "escaped_string", "escaped_key", "null_member", "whitespace"][*k as usize]));
+        }
+        match parsed {
+            Err(_) => {
+                stats.class("raw_json.rejected");
+                if preserving { stats.class("raw_json.unspecified.meaning_preserving_spelling_rejected"); }
+                if e.applied.iter().all(|k| *k == 4) && !e.applied.is_empty() { stats.class("raw_json.number_spelling_only.rejected"); }
+            }
+            Ok(p) => {
+                // anything accepted must obey the law from there on
+                law("raw_json", &p, &ser_problem, &de_problem, stats).map_err(|f| Failure::new(f.signature, format!("{}\n--- raw input:\n{raw}", f.message)))?;
+                stats.class("raw_json.accepted");
+                let same = diff(&serde_json::to_value(&problem).unwrap_or(Value::Null), &serde_json::to_value(&p).unwrap_or(Value::Null), false, 16, "").is_none();
+                if preserving { stats.class(if same { "raw_json.meaning_preserving_spelling.same_value" } else { "raw_json.unspecified.meaning_preserving_spelling_changed_value" }); }
+                if e.applied.iter().all(|k| *k == 4) && !e.applied.is_empty() {
+                    stats.class(if same { "raw_json.number_spelling_only.accepted_same_value" } else { "raw_json.number_spelling_only.accepted_other_value" });
+                }
+                if !e.applied.is_empty() { stats.class("raw_json.nontrivial"); stats.nontrivial(hash_of(&raw)); }
+                stats.sample(1, || json!({"kind": "rt_raw_json", "mutations": e.applied, "raw": raw.chars().take(600).collect::<String>()}));
+            }
+        }
+        Ok(())
+    }
+}
 
 pub fn property(_tier: Tier) -> PropertyDef {
-    PropertyDef { id: "STUB", level: "exploration", rule: "stub", assumptions: vec![], props: vec![], extra: None, required_classes: vec!["stub.never"] }
+    PropertyDef {
+        id: "C11",
+        level: "exploration",
+        rule: "proptest, six sub-checks. rt_problem_full: 'every optional field' generator builds vrp_pragmatic Problem and Matrix model values from a choice stream (each Option toggled independently; every variant of Location coordinate/reference/custom, VehicleBreak optional/required, optional break time window/offset incl. empty and 3-element lists, required break time exact/offset, clustering serving/visiting, all 17 objective types incl. multi-objective sum/weighted-sum, relations, resources, recharges; floats from a pool {integers, decimals, 1e-7, 1e15, 1e16, 1e21-1e23, 0.1+0.2, subnormal/min/max, 2^53 neighbours, -0.0} or arbitrary finite bit patterns or decimal m/10^e; strings incl. empty, quotes, backslash, control, non-BMP; integers incl. MIN/MAX) - documents need not be valid. Oracle: ser(parse(ser(d))) == ser(d) as JSON trees with numbers equal up to 1 ULP, parse(ser(d)) == d field by field (serde_json::to_value of both), every field the generator set is present in ser(d) under its documented name with its value (independently rendered expectation tree; null member == absent member), input aliases shiftTime/durations parse to the same value. rt_problem_pgen: the same law on valid pgen problems and their matrices. rt_solution_doc: directly generated Solution values (point and transit stops, parking, commute forward/backward, violations, unassigned details, extras.metrics, extras.features) under the same law + expectation tree. rt_solved_init: pgen problem solved (1-5 generations, optional telemetry/geojson extras); the written text equals ser(parse(text)), obeys the law, and read_init_solution(text, same core problem) returns Ok with, per (vehicle id, shift index), the same sequence of customer activities (job id, tag of the place index used, location) and the same unassigned customer id set; breaks/reloads/times not compared. rt_csv_import: jobs table (delivery/pickup/service by demand sign, pickup+delivery rows sharing an id, adjacent or not) and vehicles table (1-3 types, shared or distinct profiles, amount 1-4) through import_problem(\"csv\"): every cell found again, sum of AMOUNT == number of distinct vehicle ids, imported problem passes read_pragmatic. rt_raw_json: serialised full-generator problems re-emitted with 1-4 mutations (drop/duplicate/null member, reverse/rotate members, number respelling 5 -> 5.0/5e0/5E+0/50e-1/1e2, \\u-escaped strings/keys, whitespace); whatever deserialize_problem accepts must obey the law. Non-trivial: document with >=3 optional fields set or an untagged-enum value; init round trip with an assigned multi-task job or an assigned job with >=2 places/windows; CSV case with a pickup+delivery pair and >=2 vehicle types; accepted mutated raw document. Distinct by case hash.",
+        assumptions: vec![
+            "1 ULP number tolerance ('to the last but one bit'): serde_json is built without float_roundtrip",
+            "an object member written as null is treated as equal to an absent member (the docs show neither); counted in *.unspecified.none_written_as_null",
+            "compact-tour's field spelling (docs: options.jobRadius, model: job_radius) and whether meaning-preserving JSON respellings are accepted are counted, not asserted",
+            "field names of extras.metrics are taken from the baseline model (undocumented block)",
+            "init round trip is restricted to what the reader documents as supported: pgen generates no required breaks and no clustering; every place has a unique tag",
+            "CSV tables follow docs/src/getting-started/import.md: unique type ids, AMOUNT >= 1, both or none of TW_START/TW_END, pickup+delivery rows of one id with equal |DEMAND|",
+        ],
+        props: vec![Box::new(FullProblemProp), Box::new(PgenProblemProp), Box::new(SolutionDocProp), Box::new(SolvedProp), Box::new(CsvProp), Box::new(RawJsonProp)],
+        extra: None,
+        required_classes: vec![
+            "problem_doc.nontrivial",
+            "problem_doc.with.clustering",
+            "problem_doc.with.break_optional",
+            "problem_doc.with.break_required",
+            "problem_doc.with.recharges",
+            "problem_doc.with.multi_objective",
+            "problem_doc.alias.shiftTime",
+            "matrix_doc.alias.durations",
+            "pgen_doc.nontrivial",
+            "solution_doc.with.transit_stop",
+            "solution_doc.with.commute",
+            "solution_doc.with.parking",
+            "solution_doc.with.violations",
+            "solution_doc.with.metrics",
+            "solved_doc.with.metrics",
+            "init.nontrivial",
+            "init.multi_task_job_assigned",
+            "init.multi_place_or_window_job_assigned",
+            "init.break_assigned",
+            "init.reload_assigned",
+            "init.has_unassigned",
+            "csv.nontrivial",
+            "csv.pair_rows_not_adjacent",
+            "csv.service_zero_demand",
+            "csv.distinct_profiles",
+            "raw_json.accepted",
+            "raw_json.rejected",
+            "raw_json.meaning_preserving_spelling.same_value",
+            "raw_json.number_spelling_only.accepted_same_value",
+        ],
+    }
 }
